@@ -10,3 +10,6 @@ pub mod hint;
 pub mod iter;
 pub mod num;
 pub mod unroll;
+
+#[cfg(rten_verif)]
+pub mod verif;
